@@ -64,6 +64,15 @@ pub fn pack_cases(tier: Tier) -> Vec<PackCase> {
                     }
                 }
                 // many small messages and long sliced messages (slice index / count varint classes)
+                // message-count classes per packet (255 / 256 / 257 / several hundred tiny messages in one tick)
+                let many: Vec<Vec<usize>> = if seq0 == 0 && (id0 == 0 || id0 == 16_384) {
+                    vec![vec![1usize; 255], vec![1usize; 256], vec![1usize; 257], vec![0usize; 600], vec![2usize; 300], vec![0usize; 1000]]
+                } else {
+                    vec![]
+                };
+                for lens in many {
+                    out.push(PackCase { kind, lens, seq0, id0 });
+                }
                 for lens in [vec![0usize; 40], vec![1usize; 70], vec![62, 63, 64, 65, 1100], vec![76_800], vec![84_000, 1], vec![1201, 1200, 1199, 2401]] {
                     out.push(PackCase { kind, lens, seq0, id0 });
                 }
